@@ -16,6 +16,7 @@ import (
 	"net"
 	"net/http"
 	"net/http/httptest"
+	"os"
 	"regexp"
 	"runtime"
 	"sort"
@@ -334,11 +335,22 @@ func c15Quiesce(wantConns int) bool {
 		okRuns = 0
 		if time.Now().After(end) {
 			c15Timeouts++
+			ex := d.example
+			if len(ex) > 700 {
+				ex = ex[:700]
+			}
+			c15LastStuck = fmt.Sprintf("conns=%d want=%d busy=%d: %s", d.conns, wantConns, d.busy, ex)
+			if os.Getenv("VERIF_DEBUG_STUCK") != "" {
+				fmt.Fprintln(os.Stderr, "verif: no quiescence:", c15LastStuck)
+			}
 			return false
 		}
 		time.Sleep(300 * time.Microsecond)
 	}
 }
+
+// c15LastStuck: diagnostic text of the last quiescence timeout (goroutine that was not parked).
+var c15LastStuck string
 
 func c15WaitGone() bool {
 	end := time.Now().Add(3 * time.Second)
